@@ -109,20 +109,21 @@ def groups_of_ex(tree, subtrees=True):
     out = []
     seen = set()
 
-    def rec(g, pabs, path, label, stale_parent):
+    def rec(g, pabs, path, label, stale_parent, parent=None, ppabs=None):
         stale = None
         if stale_parent is not None:
             stale = list(mul6(stale_parent, g['ts'])) if finite(g['ts']) else None
         elif (label or '').endswith('-pattern') and path.endswith('#%s/0' % label) and finite(g['ts']) and finite(g['abs_ts']) \
                 and ts_near(g['ts'], g['abs_ts']) and not ts_near(g['ts'], ID6):
             stale = ID6       # g is P
-        out.append((path, g, pabs, dict(sub=label, stale=stale)))
+        out.append((path, g, pabs, dict(sub=label, stale=stale, parent_ts=parent['ts'] if parent else None, gp_abs=ppabs,
+                                        wrap_ok=bool(g.get('clip')) or bool(parent and parent.get('clip')))))
         if subtrees:
             for lab, r, ptr in subroots_of(g):
                 sub(r, "%s#%s" % (path, lab), ptr, lab)
         for i, c in enumerate(g['children']):
             if c['t'] == 'g':
-                rec(c, g['abs_ts'], "%s/%d" % (path, i), label, stale)
+                rec(c, g['abs_ts'], "%s/%d" % (path, i), label, stale, g, pabs)
             elif subtrees:
                 for lab, r, ptr in subroots_of(c):
                     sub(r, "%s/%d#%s" % (path, i, lab), ptr, lab)
@@ -250,17 +251,101 @@ def source_text(doc):
     return doc
 
 
+def _attr(attrs, name):
+    m = re.search(r"(?<![\w:-])%s\s*=\s*\"([^\"]*)\"|(?<![\w:-])%s\s*=\s*'([^']*)'" % (name, name), attrs)
+    return (m.group(1) if m.group(1) is not None else m.group(2)) if m else None
+
+
+def _nonid_transform(attrs):
+    tv = _attr(attrs, 'transform')
+    if tv is None:
+        return False
+    t = parse_transform(tv)
+    return t is None or any(abs(a - b) > 1e-9 for a, b in zip(t, (1, 0, 0, 1, 0, 0)))
+
+
 def use_transform_class(src):
-    """KNOWN class use_transform_twice: the document has a `use` or `symbol` element - the elements that
-    use_node::convert_children turns into groups - carrying its own non-identity `transform` attribute.
-    (Nested `svg` elements were part of the class until fb5447a.)"""
+    """KNOWN class use_transform_twice, as wide as the defect that is left after 214a8de (use_node.rs convert):
+      (a) a `use` element with its own non-identity `transform` whose target is NOT a symbol converted without a viewport clip:
+          the target is not a `symbol` (use_node::convert_children gets orig_ts and convert_group resolves the attribute again),
+          or it is a `symbol` that gets the viewport clip (overflow other than visible / auto: clip_element's group carries
+          orig_ts with abs_transform = parent abs);
+      (b) a `symbol` element with its own non-identity `transform` (convert_children pre-concats new_ts, convert_group adds the
+          symbol's attribute to abs_transform only).
+    A `use` with transform -> `symbol overflow="visible|auto"` left the class with 214a8de (the use group keeps its transform:
+    GK_Plain); nested `svg` elements left it with fb5447a."""
+    elems = {}
+    for m in re.finditer(r"<(?:\w+:)?(\w+)\b([^>]*)>", src):
+        i = _attr(m.group(2), 'id')
+        if i is not None and i not in elems:
+            elems[i] = (m.group(1), m.group(2))
     for m in re.finditer(r"<(?:\w+:)?(use|symbol)\b([^>]*)>", src):
-        tm = re.search(r"\btransform\s*=\s*\"([^\"]*)\"|\btransform\s*=\s*'([^']*)'", m.group(2))
-        if tm:
-            t = parse_transform(tm.group(1) or tm.group(2) or '')
-            if t is None or any(abs(a - b) > 1e-9 for a, b in zip(t, (1, 0, 0, 1, 0, 0))):
-                return True
+        tag, attrs = m.group(1), m.group(2)
+        if not _nonid_transform(attrs):
+            continue
+        if tag == 'symbol':
+            return True
+        href = _attr(attrs, 'xlink:href') or _attr(attrs, 'href') or ''
+        tgt = elems.get(href.lstrip('#').strip())
+        if tgt is None:
+            return True         # unresolved in the text (entities, CSS): stay on the wide side
+        if tgt[0] != 'symbol':
+            return True
+        ov = _attr(tgt[1], 'overflow')
+        if ov is None:
+            st = _attr(tgt[1], 'style') or ''
+            mo = re.search(r"overflow\s*:\s*([\w-]+)", st)
+            ov = mo.group(1) if mo else None
+        if ov not in ('visible', 'auto'):
+            return True
     return False
+
+
+def _flt(v, default=0.0):
+    try:
+        return float(v) if v is not None else default
+    except ValueError:
+        return None
+
+
+def _resolved_transform(attrs):
+    """transform attribute with a numeric transform-origin applied (resolve_transform) -> 6-tuple or None"""
+    tv = _attr(attrs, 'transform')
+    t = parse_transform(tv) if tv is not None else (1, 0, 0, 1, 0, 0)
+    if t is None:
+        return None
+    ov = _attr(attrs, 'transform-origin')
+    if ov is not None:
+        try:
+            o = [float(x) for x in re.split(r"[\s,]+", ov.strip()) if x]
+        except ValueError:
+            return None
+        if len(o) != 2:
+            return None
+        t = mul6(mul6((1, 0, 0, 1, o[0], o[1]), t), (1, 0, 0, 1, -o[0], -o[1]))
+    return tuple(t)
+
+
+def use_candidates(src):
+    """-> [(use_passed, passed, aux)]: for every `use` with a transform T (and x, y): (True, T * translate(x, y), T);
+    for every `symbol` with a transform S: (False, identity, S).  The formulas are decided in Coq (known_wrong_use)."""
+    out = []
+    for m in re.finditer(r"<(?:\w+:)?(use|symbol)\b([^>]*)>", src):
+        tag, attrs = m.group(1), m.group(2)
+        if not _nonid_transform(attrs):
+            continue
+        t = _resolved_transform(attrs)
+        if t is None:
+            continue
+        if tag == 'symbol':
+            out.append((False, ID6, list(t)))
+        else:
+            x, y = _flt(_attr(attrs, 'x')), _flt(_attr(attrs, 'y'))
+            if x is None or y is None:
+                out.append((False, ID6, list(t)))     # units / percentages: without the constraint on ts
+            else:
+                out.append((True, list(mul6(t, (1, 0, 0, 1, x, y))), list(t)))
+    return out[:12]
 
 
 def stroke_skew_class(b):
@@ -352,9 +437,11 @@ def gen_docs(rng, n):
                     'marker-start="url(#m)" marker-mid="url(#m)" marker-end="url(#m)"/></g>' % (rng.choice(['strokeWidth', 'userSpaceOnUse']), t1, sw))
         elif k == 2:    # use / symbol / nested svg without their own transform attribute
             body = ('<defs><symbol id="s" viewBox="0 0 50 50">%s id="ps" %s transform="scale(0.25)"/></symbol>'
+                    '<symbol id="sv" overflow="visible"><rect id="pv" x="5" y="5" width="30" height="20" fill="#508030"/></symbol>'
                     '<g id="d1">%s id="pd" %s/></g></defs><g id="g1" transform="%s"><use id="u1" xlink:href="#s" x="20" y="30" width="100" height="80"/>'
+                    '<use id="u3" xlink:href="#sv" x="8" y="12" %s/>'
                     '<use id="u2" xlink:href="#d1" x="10" y="5"/><svg id="n1" x="60" y="60" width="90" height="70" viewBox="0 0 200 200" %s>%s id="pn" %s/></svg></g>'
-                    % (sh, stroke, rng.choice(shapes), stroke, t1, rng.choice(['', 'transform="translate(7 3)"', 'transform="rotate(15) scale(1.2)" opacity="0.6"']),
+                    % (sh, stroke, rng.choice(shapes), stroke, t1, tattr(t2, 2), rng.choice(['', 'transform="translate(7 3)"', 'transform="rotate(15) scale(1.2)" opacity="0.6"']),
                        rng.choice(shapes), stroke))
         elif k == 3:    # filters: region larger and smaller than the content
             reg = rng.choice(['x="-0.3" y="-0.3" width="1.6" height="1.6"', 'x="0.25" y="0.25" width="0.5" height="0.5"',
@@ -410,7 +497,8 @@ def gen_docs(rng, n):
             leaf = rng.choice(['%s id="p1" %s %s/>' % (sh, stroke, tattr(n1, 1)),
                                '<text id="t1" x="60" y="110" font-family="Noto Sans" font-size="24" %s>Origin</text>' % tattr(n1, 1),
                                '<rect id="p1" x="60" y="70" width="80" height="50" fill="#4070d0" %s/>' % tattr(n1, 1)])
-            body = '<g id="g1" %s>%s<g id="g2" %s>%s id="p2" fill="#d07040"/></g></g>' % (tattr(t1, 2), leaf, tattr(rng.choice(nontrans), 1), rng.choice(shapes))
+            # (p2 unstroked: not the needle shapes[7], whose 1-px tip fades differently in different canvases)
+            body = '<g id="g1" %s>%s<g id="g2" %s>%s id="p2" fill="#d07040"/></g></g>' % (tattr(t1, 2), leaf, tattr(rng.choice(nontrans), 1), rng.choice(shapes[:5]))
         docs.append('<svg %s width="220" height="220" viewBox="0 0 220 220">%s</svg>' % (NS, body))
     return docs
 
@@ -565,7 +653,11 @@ def cli_stage(ctx, rng, quick, binp, docs):
             problems.append("--export-area-page wrote no readable PNG (exit %s: %s)" % (r2[0], r2[2][:120]))
         elif pg['size'] != pg['expected_size']:
             problems.append("--export-area-page image is %s, the page is %s" % (pg['size'], pg['expected_size']))
-        elif pg['ref_ok'] and min(r['expected_size']) >= 4 and 'filter' not in source_text(d):
+        elif pg['ref_ok'] and min(r['expected_size']) >= 4 and 'filter' not in source_text(d) and not re.search(r"<mask\b[^>]*\smask=", source_text(d)):
+            # (a mask that has its own `mask`: OPEN CANDIDATE reported to the coordinator - corpus/witness/C19-mask-on-mask-export.svg:
+            #  `--export-id g1 --export-area-page` paints rows 31..99, the full rendering and render_node placed on a page-sized
+            #  canvas paint 31..107; render_node into the box-sized canvas is bit-identical to the CLI, so the effect is inside
+            #  resvg's rendering of nested masks into canvases of different size, not in the boxes: not this property's clause)
             # (filters depend on the canvas they are rendered into: C19's business; here CLI == render_node is checked above)
             stats['page_checked'] += 1
             a, b = pg['extent'], pg['ref_extent']
@@ -609,6 +701,64 @@ def cli_stage(ctx, rng, quick, binp, docs):
         elif nrep < 3:
             nrep += 1
             ctx.violation(text, rp)
+    # ---------------------------------------------------------------- zoom: {--export-id} x {--export-area-page on / off} x {-z 3, -z 8, -w, -h, none}
+    # x fractional layer-box origins (.25 / .5 / .75): the painted box must be zoom * the reported absolute layer box.
+    # main.rs places the node pixmap at trunc(box origin * zoom): tolerance 2 px (truncation + anti-aliasing); measured 0-1 px.
+    zdocs = []
+    for k, (fx, fy) in enumerate([(10.75, 5.5), (20.25, 12.75), (7.5, 30.25)]):
+        zdocs.append(('<svg %s width="100" height="60"><g id="zg%d" transform="translate(%s %s)"><rect id="zr%d" x="0" y="0" width="20" height="10" fill="#2a6"/>'
+                      '<rect x="4" y="2" width="6" height="3" fill="#a26"/></g></svg>' % (NS, k, fx, fy, k), 'zoom%d' % k, (fx, fy, 20.0, 10.0)))
+    zvars = [('z1', [], lambda W, H: 1.0), ('z3', ['-z', '3'], lambda W, H: 3.0), ('z8', ['-z', '8'], lambda W, H: 8.0),
+             ('w', ['-w', '350'], lambda W, H: 350.0 / W), ('h', ['-h', '150'], lambda W, H: 150.0 / H)]
+    zjobs = []
+    for k, (d, name, box) in enumerate(zdocs):
+        pth = os.path.join(wd, 'zoom%d.svg' % k)
+        with open(pth, 'w') as f:
+            f.write(d)
+        for nid in ('zg%d' % k, 'zr%d' % k):
+            for vn, vargs, zf in zvars:
+                for page in (True, False):
+                    out = os.path.join(wd, 'zoom%d_%s_%s_%d.png' % (k, nid, vn, page))
+                    zjobs.append(dict(doc=d, name=name, id=nid, box=box, var=vn, page=page, out=out, zf=zf,
+                                      argv=vargs + ['--export-id', nid] + (['--export-area-page'] if page else []) + [pth, out]))
+
+    def zrun(j):
+        return sh(j['argv'])
+    with cf.ThreadPoolExecutor(max_workers=12) as ex:
+        zres = list(ex.map(zrun, zjobs))
+    zext = ctx.rvh_batch(binp, 'png-extent', [j['out'] for j in zjobs], per_item_timeout=30)
+    zstats = dict(cases=0, max_dev=0.0)
+    zrep = 0
+    for j, (rc, so, se), o in zip(zjobs, zres, zext):
+        try:
+            os.remove(j['out'])
+        except OSError:
+            pass
+        try:
+            e = json.loads(o)
+        except (TypeError, ValueError):
+            e = {'error': 'unparsable'}
+        x, y, w, h = j['box']
+        z = j['zf'](100.0, 60.0) if j['page'] else j['zf'](w, h)    # -w / -h fit the page, or the node when exported alone
+        ctx.note_case("cli-zoom/%s/%s/%s/%d" % (j['name'], j['id'], j['var'], j['page']))
+        zstats['cases'] += 1
+        rp = dict(op='cli-zoom', doc=j['doc'], id=j['id'], argv=[rb] + fonts + j['argv'], exit=rc, stderr=se[:300], result=e, zoom=z, reported_box=j['box'])
+        if 'extent' not in e or e['extent'] is None:
+            if zrep < 3:
+                zrep += 1
+                ctx.violation("CLI zoom export of %r (%s, page=%s) wrote no readable / an empty PNG (exit %s: %s)" % (j['id'], j['var'], j['page'], rc, se[:120]), rp)
+            continue
+        want = [x * z, y * z, (x + w) * z, (y + h) * z] if j['page'] else [0.0, 0.0, w * z, h * z]
+        dev = max(abs(a - b) for a, b in zip(e['extent'], want))
+        zstats['max_dev'] = max(zstats['max_dev'], dev)
+        # without --export-area-page the canvas is fit_to(to_int_size(box)): the content may be up to 1 zoomed unit short of it
+        tol = 2.0 if j['page'] else 2.0 + z
+        if dev > tol and zrep < 3:
+            zrep += 1
+            ctx.violation("CLI `%s --export-id %s%s`: the node is painted at %s, zoom %.3g x its reported absolute layer box %s is %s (off by %.2f px)"
+                          % (' '.join(j['argv'][:-4 if j['page'] else -3][:2]) or 'zoom 1', j['id'], ' --export-area-page' if j['page'] else '', e['extent'], z,
+                             list(j['box']), [round(v, 2) for v in want], dev), rp)
+    stats['zoom'] = zstats
     ctx.cov['cli'] = stats
 
 
@@ -634,7 +784,7 @@ def run(ctx):
 
     files = vlib.corpus_files()
     wit = [os.path.join(vlib.VERIF, 'corpus', 'witness', f) for f in ('F21.svg', 'F14.svg', 'C12-background.svg', 'C12-stroke-skew.svg', 'C12-dash-caps.svg', 'C12-nested-svg-transform.svg', 'C12-leaf-export-crop.svg', 'C12-pattern-pushed-transform.svg',
-                                                                   'C12-synth-clip-nested-svg.svg', 'C12-synth-clip-image.svg')]
+                                                                   'C12-synth-clip-nested-svg.svg', 'C12-synth-clip-image.svg', 'C12-use-symbol-visible.svg')]
     wit = [w for w in wit if os.path.exists(w)]
     sample = list(files) if not quick else rng.sample(files, 500)
     must = [f for f in files if re.search(r"structure/(use|symbol|svg|image)/|painting/marker/|filters/filter/|masking/", f)]
@@ -657,6 +807,7 @@ def run(ctx):
     trees = {}
     skipped_nonfinite = 0
     sub_counts = {}
+    groups_pabs = []
     for (d, name), o in zip(docs, outs):
         try:
             tree = json.loads(o)
@@ -674,6 +825,7 @@ def run(ctx):
                 continue
             cases.append(c)
             meta.append((d, name, path, g, info))
+            groups_pabs.append(pabs)
             if info['sub']:
                 kind = re.sub(r"[\d.]+$", "", info['sub'])
                 sub_counts[kind] = sub_counts.get(kind, 0) + 1
@@ -705,17 +857,49 @@ def run(ctx):
     ctx.cov['bbox_product_mismatches'] = len(prod_bad)
     ctx.cov['bbox_box_mismatches'] = len(box_bad)
     reported = 0
+    # class use_transform_twice, exact: the reported abs_transform must EQUAL the value the unchanged code is known to produce
+    # (Model/BBox.v known_wrong_use: KW_ViaUse / KW_ClipWrap / KW_Inner), leaves must still carry the group's abs_transform
+    use_idx = [i for i in prod_bad if not pattern_pushed_class(meta[i][3], meta[i][4]) and use_transform_class(source_text(meta[i][0]))]
+    use_exact = set()
+    if use_idx:
+        rows = []
+        for i in use_idx:
+            d, name, path, g, info = meta[i]
+            pabs = [x for x in (groups_pabs[i] if groups_pabs[i] is not None else ID6)]
+            cands = use_candidates(source_text(d))
+            rows.append("(%s, %s, %s, %s, %s, %s, [%s], [%s])" % (
+                cts(info['gp_abs'] if info.get('gp_abs') is not None else ID6), cts(pabs), cts(info['parent_ts'] if info.get('parent_ts') is not None else ID6),
+                cts(g['ts']), cts(g['abs_ts']), 'true' if info.get('wrap_ok') else 'false',
+                '; '.join("(%s, %s, %s)" % ('true' if u else 'false', cts(pp), cts(aa)) for u, pp, aa in cands),
+                '; '.join(cts(c['abs_ts']) for c in g['children'] if c['t'] != 'g')))
+        body = ("Local Open Scope Q_scope.\n"
+                "Fixpoint bad_from {A} (f : A -> bool) (l : list A) (i : N) : list N :=\n"
+                "  match l with [] => [] | x :: r => if f x then bad_from f r (N.succ i) else i :: bad_from f r (N.succ i) end.\n"
+                "Definition rows : list (ts * ts * ts * ts * ts * bool * list (bool * ts * ts) * list ts) := [\n%s\n].\n"
+                "Eval vm_compute in (bad_from (fun r => match r with (gp, p, pt, t, a, w, cs, ls) => known_wrong_use %s gp p pt t a w cs && "
+                "forallb (fun l => ts_closeb %s l a) ls end) rows 0%%N).\n" % (";\n".join(rows), TOL, TOL))
+        rc, out = ctx.coq_eval('k_use_exact', body, IMPORTS, timeout=600)
+        bl = ctx.parse_N_list(out) if rc == 0 else None
+        if bl is None:
+            ctx.log("model evaluation failed:\n" + out[-1200:])
+            ctx.violation("bbox: the exact class predicate known_wrong_use no longer evaluates (Model/BBox.v)", dict(), found_input=False)
+        else:
+            use_exact = set(use_idx[j] for j in range(len(use_idx)) if j not in bl)
+    ctx.cov['use_transform_twice_exact'] = dict(candidates=len(use_idx), excused=len(use_exact))
     for i in prod_bad:
         d, name, path, g, info = meta[i]
         src = source_text(d)
-        rep = dict(op='bbox/abs-transform', doc=d, group_path=path, group_id=g['id'], ts=g['ts'], abs_ts=g['abs_ts'],
+        rep = dict(op='bbox/abs-transform', doc=d, group_path=path, group_id=g['id'], ts=g['ts'], abs_ts=g['abs_ts'], parent_abs=groups_pabs[i],
                    children_abs=[c['abs_ts'] for c in g['children'] if c['t'] != 'g'][:3])
         text = "abs_transform is not the product of the ancestors' transforms at group %r (%s) of %s" % (g['id'], path, name)
         if pattern_pushed_class(g, info):
             ctx.known_or_violation('pattern_pushed_transform', text + " (pattern content below the push_pattern_transform wrapper)", rep)
-        elif use_transform_class(src):
+        elif i in use_exact:
             ctx.known_or_violation('use_transform_twice', text, rep)
         elif reported < 3:
+            if i in use_idx:
+                text += (" - the value is NOT the one class use_transform_twice excuses (parent * passed * attribute for a use / symbol group, "
+                         "parent abs for the viewport clip wrapper, parent * use transform for the group inside it)")
             ctx.violation(text, rep)
             reported += 1
     nrep_box = 0
@@ -809,6 +993,76 @@ def run(ctx):
                     ctx.violation("path-boxes: bounding_box / abs_bounding_box of the polygonal path %r (%s) of %s differ from the bounding box of its "
                                   "(transformed) vertices" % (n['id'], path, name),
                                   dict(op='bbox/path', doc=d, group_path=path, abs_ts=n['abs_ts'], segs=n['segs'][:12], bbox=n['bbox'], abs_bbox=n['abs_bbox']))
+    # ------------------------------------------------------------------ K leaf-sandwich: fill box <= stroke box <= inflated fill box
+    # every path leaf of every tree (sub-trees included): chk_leaf_sandwich inside Coq.  Slack 0.02 + 1e-5 * |coordinate| (f32 of
+    # the stroker; measured on the whole corpus, 3886 paths: largest excess over the radius bound 0.044 at radius 20).  Not in
+    # the comparison: paths with a stray MoveTo (its point is in the fill box but has no outline: shapes/path/M-L-M.svg) - counted.
+    JOIN = {'Miter': 0, 'MiterClip': 1, 'Round': 2, 'Bevel': 3}
+    CAP = {'Butt': 0, 'Round': 1, 'Square': 2}
+    scases, smeta = [], []
+    stray = [0]
+    nostroke_diff = [0]
+
+    def walk_leaves(n, name, d, path):
+        if n['t'] == 'path' and finite(n['bbox']) and finite(n['sbbox']):
+            segs = n.get('segs', [])
+            if any(sg[0] == 'M' and (k + 1 >= len(segs) or segs[k + 1][0] in 'MZ') for k, sg in enumerate(segs)):
+                stray[0] += 1
+            else:
+                st = n.get('stroke')
+                if not st and list(n['bbox']) != list(n['sbbox']):
+                    nostroke_diff[0] += 1    # the fill half of a path split by paint-order keeps the stroke box (larger, harmless)
+                w = st['width'] if st else 0
+                ml = st['miterlimit'] if st else 4
+                mx = max(abs(v) for v in list(n['bbox']) + list(n['sbbox']))
+                scases.append("(%s, %s, %s, %d%%N, %d%%N, %s, %s, %s)" % (
+                    'true' if st else 'false', qstr(w), qstr(ml), JOIN.get(st['linejoin'], 0) if st else 0, CAP.get(st['linecap'], 2) if st else 0,
+                    cbox(n['bbox']), cbox(n['sbbox']), qstr(f32(0.02 + 1e-5 * mx))))
+                smeta.append((d, name, path, n))
+        for i, c in enumerate(n.get('children', [])):
+            walk_leaves(c, name, d, "%s/%d" % (path, i))
+        for lab, r, ptr in subroots_of(n):
+            walk_leaves(r, name, d, "%s#%s" % (path, lab))
+    for (d, name) in docs:
+        if name in trees:
+            walk_leaves(trees[name]['root'], name, d, '')
+    if quick and len(scases) > 1500:
+        keep = sorted(rng.sample(list(range(len(scases))), 1500))
+        scases = [scases[i] for i in keep]
+        smeta = [smeta[i] for i in keep]
+    ctx.cov['leaf_sandwich'] = dict(cases=len(scases), stray_moveto_skipped=stray[0], unstroked_with_larger_stroke_box=nostroke_diff[0])
+    for _d, _name, _path, _n in smeta:
+        ctx.note_case("sandwich/%s%s" % (_name, _path), nontrivial=bool(_n.get('stroke')))
+    if scases:
+        SCH = 800
+
+        def sev(k):
+            body = ("Local Open Scope Q_scope.\n"
+                    "Fixpoint bad_from {A} (f : A -> bool) (l : list A) (i : N) : list N :=\n"
+                    "  match l with [] => [] | x :: r => if f x then bad_from f r (N.succ i) else i :: bad_from f r (N.succ i) end.\n"
+                    "Definition cases : list (bool * Q * Q * N * N * box * box * Q) := [\n%s\n].\n"
+                    "Eval vm_compute in (bad_from (fun c => match c with (sk, w, ml, j, cp, fb, sb, sl) => chk_leaf_sandwich sl sk w ml j cp fb sb end) cases 0%%N).\n"
+                    % ";\n".join(scases[k * SCH:(k + 1) * SCH]))
+            return ctx.coq_eval('k_sandwich_%d' % k, body, IMPORTS, timeout=900)
+        with cf.ThreadPoolExecutor(max_workers=8) as ex:
+            sres = list(ex.map(sev, range((len(scases) + SCH - 1) // SCH)))
+        nrep = 0
+        for k, (rc, out) in enumerate(sres):
+            bl = ctx.parse_N_list(out) if rc == 0 else None
+            if bl is None:
+                ctx.log("model evaluation failed:\n" + out[-1200:])
+                ctx.violation("leaf-sandwich: the model no longer evaluates (Model/BBox.v)", dict(), found_input=False)
+                break
+            for bi in bl:
+                d, name, path, n = smeta[k * SCH + bi]
+                if nrep < 3:
+                    nrep += 1
+                    st = n.get('stroke') or {}
+                    ctx.violation("leaf-sandwich: path %r (%s) of %s: fill box %s, stroke box %s are not fill <= stroke <= fill inflated by the stroke radius "
+                                  "(width %s, miter limit %s, %s join, %s cap)" % (n['id'], path, name, n['bbox'], n['sbbox'], st.get('width'), st.get('miterlimit'),
+                                                                                 st.get('linejoin'), st.get('linecap')),
+                                  dict(op='bbox/sandwich', doc=d, group_path=path, bbox=n['bbox'], sbbox=n['sbbox'],
+                                       stroke={k2: st.get(k2) for k2 in ('width', 'miterlimit', 'linejoin', 'linecap')}, segs=n.get('segs', [])[:12]))
     # ------------------------------------------------------------------ S e2e-C12 painted pixels inside the reported boxes
     per = 12 if quick else 400
     payloads = ["-\t%s\t%d\t%d\t2" % (d, per, rng.below(1 << 30)) for d, _ in docs]
